@@ -46,9 +46,9 @@ def run_exact(ctx, states):
         try:
             bl, bu = E.get_density_matrix_boundary(rho)
             ctx.evaluations += 1
-            if abs(bu - bdm) > 1e-9 * max(1, bdm): bad('get_density_matrix_boundary', 'upper boundary differs from the exact threshold', dict(got=float(bu)))
+            if core.gt(abs(bu - bdm), 1e-9) * max(1, bdm): bad('get_density_matrix_boundary', 'upper boundary differs from the exact threshold', dict(got=float(bu)))
             pl, pu = E.get_ppt_boundary(rho, dims)
-            if abs(pu - bppt) > 1e-9 * max(1, bppt): bad('get_ppt_boundary', 'upper boundary differs from the exact threshold', dict(got=float(pu)))
+            if core.gt(abs(pu - bppt), 1e-9) * max(1, bppt): bad('get_ppt_boundary', 'upper boundary differs from the exact threshold', dict(got=float(pu)))
             # threshold semantics with the library's own tests: just inside passes, just outside fails
             rin, rout = E.hf_interpolate_dm(rho, beta=bu * (1 - DELTA)), E.hf_interpolate_dm(rho, beta=bu * (1 + DELTA))
             if not psd(rin): bad('get_density_matrix_boundary', 'state just inside the reported boundary is not positive')
@@ -58,7 +58,7 @@ def run_exact(ctx, states):
             if E.is_ppt(pout, dims) and psd(pout): bad('get_ppt_boundary', 'state just outside the reported PPT boundary is still a PPT state')
             # interpolation places the state at the requested Gell-Mann distance
             for b in (0.05, bu / 2, bu):
-                if abs(numqi.gellmann.dm_to_gellmann_norm(E.hf_interpolate_dm(rho, beta=b)) - b) > 1e-9: bad('hf_interpolate_dm', 'state is not at the requested Gell-Mann distance', dict(beta=b))
+                if core.gt(abs(numqi.gellmann.dm_to_gellmann_norm(E.hf_interpolate_dm(rho, beta=b)) - b), 1e-9): bad('hf_interpolate_dm', 'state is not at the requested Gell-Mann distance', dict(beta=b))
             # without the within_dm clamp the PPT boundary is the threshold of the partial transpose alone
             if pu > bu + 1e-12: bad('get_ppt_boundary', 'PPT boundary exceeds the state-space boundary (within_dm=True)')
         except Exception as ex:
@@ -72,11 +72,11 @@ def run_exact(ctx, states):
             pl, pu = E.get_ppt_boundary(arr, dims)
             want_u = np.array([math.sqrt(rf(o['dm2'])) for _, o in grp])
             want_p = np.array([math.sqrt(rf(o['pt2'])) for _, o in grp])
-            if bu.shape != want_u.shape or np.abs(bu - want_u).max() > 1e-8: ctx.violation('C06:get_density_matrix_boundary:batched', 'batched call disagrees with the exact thresholds', dict(dims=dims))
-            if pu.shape != want_p.shape or np.abs(pu - want_p).max() > 1e-8: ctx.violation('C06:get_ppt_boundary:batched', 'batched call disagrees with the exact thresholds', dict(dims=dims))
+            if bu.shape != want_u.shape or core.gt(np.abs(bu - want_u).max(), 1e-8): ctx.violation('C06:get_density_matrix_boundary:batched', 'batched call disagrees with the exact thresholds', dict(dims=dims))
+            if pu.shape != want_p.shape or core.gt(np.abs(pu - want_p).max(), 1e-8): ctx.violation('C06:get_ppt_boundary:batched', 'batched call disagrees with the exact thresholds', dict(dims=dims))
             arr2 = arr.reshape((1, len(grp)) + arr.shape[1:])
             bl2, bu2 = E.get_density_matrix_boundary(arr2)
-            if bu2.shape != (1, len(grp)) or np.abs(bu2[0] - want_u).max() > 1e-8: ctx.violation('C06:get_density_matrix_boundary:batched', 'batch shape (1,k)', dict(dims=dims))
+            if bu2.shape != (1, len(grp)) or core.gt(np.abs(bu2[0] - want_u).max(), 1e-8): ctx.violation('C06:get_density_matrix_boundary:batched', 'batch shape (1,k)', dict(dims=dims))
     except Exception as ex:
         ctx.violation('C06:exception:batched', type(ex).__name__ + ': ' + str(ex)[:160], None)
 
